@@ -167,3 +167,8 @@ EXTRA["C10"] = EXTRA.get("C10", []) + [
     M("psbtout-p2sh-p2wpkh-membership", "psbt.py", "            if self.redeem_script.is_p2wpkh():\n                # p2sh-p2wpkh commits to the hash160 of the pubkey in the RedeemScript\n",
       "            if False:\n                # p2sh-p2wpkh commits to the hash160 of the pubkey in the RedeemScript\n", ["C10.19"], "p2sh-p2wpkh output key looked up in the RedeemScript (F38 undone)"),
 ]
+
+EXTRA["C06"] = EXTRA.get("C06", []) + [
+    M("p2sh-scriptsig-not-push-only", "tx.py", "        if script_pubkey.is_p2sh() and any(\n            isinstance(command, int) and command > 0x60\n",
+      "        if False and any(\n            isinstance(command, int) and command > 0x60\n", ["C06.23"], "opcodes next to the RedeemScript push accepted (F39 undone)"),
+]
